@@ -22,6 +22,7 @@ import SSEPyVerif.Proofs.Schemes.CT14
 import SSEPyVerif.Proofs.Schemes.SSE1
 import SSEPyVerif.Proofs.Schemes.Pi2Lev
 import SSEPyVerif.Proofs.Schemes.DP17
+import SSEPyVerif.Proofs.Schemes.ChainComplete
 namespace SSEPy.C01
 open SSEPy.Sch SSEPy.Sch.Chain
 
@@ -268,5 +269,92 @@ theorem DP17.search_stored_partial (raw : RawCfg) (cfg : DP17Cfg) (hcfg : DP17.c
     (w : Bytes) (ids : List Bytes) (hm : (w, ids) ∈ db) (tk : List Bytes) (htk : DP17.token cfg lv [k1, k2, k3] w = .ok tk)
     (res : List Bytes) (hres : DP17.search cfg lv edb tk = .ok res) : ∀ id ∈ ids, id ∈ res :=
   DP17.search_present cfg lv raw hcfg hl k1 k2 k3 db t t' edb hs hkeys hidl hinj hperm hfresh w ids hm tk htk res hres
+
+/-- a PiBas configuration with `prf_f_output_length = param_lambda` can run -/
+theorem PiBas.runnable (raw : RawCfg) (cfg : ChainCfg) (hcfg : PiBas.cfgBuild raw = .ok cfg)
+    (hout : getInt raw "prf_f_output_length" = getInt raw "param_lambda") : Chain.Runnable cfg ∧ cfg.prfF.keyLength = cfg.lambda := by
+  obtain ⟨lam, out, ske, _, hlam, ho, hske, rfl⟩ := PiBas.cfgBuild_ok raw cfg hcfg
+  rw [hlam, ho] at hout
+  cases hout
+  have hk := new_keyLength lam ske hske
+  have hne : (lam == LENGTH_NOT_GIVEN) = false := by
+    simp [LENGTH_NOT_GIVEN]; omega
+  refine ⟨⟨rfl, ?_, ?_, ?_, rfl, (new_plain lam ske hske).1⟩, rfl⟩
+  · simp [HmacPRF.new, hne]
+  · simp [HmacPRF.new, hne, (new_plain lam ske hske).2]
+  · simp [HmacPRF.new, hne]; omega
+
+/-- PiBas, WITHOUT "once setup has returned": for a configuration the builder accepts with `prf_f_output_length =
+    param_lambda`, every key of `param_lambda` bytes, every database and every tape that supplies one 16-byte IV per
+    posting, `EDBSetup` returns an index — and then (`PiBas.search_stored`) every stored keyword's search is exact. -/
+theorem PiBas.setup_returns (raw : RawCfg) (cfg : ChainCfg) (hcfg : PiBas.cfgBuild raw = .ok cfg)
+    (hout : getInt raw "prf_f_output_length" = getInt raw "param_lambda") (lv : Leaves) (hl : LeafLaws lv)
+    (K : Bytes) (hK : (K.length : Int) = cfg.lambda) (db : DB) (t : Tape) (hs : Chain.Supplies db.total t) :
+    ∃ D t', Chain.setup cfg lv K db t = .ok (D, t') := by
+  obtain ⟨hr, hkl⟩ := PiBas.runnable raw cfg hcfg hout
+  obtain ⟨lam, out, ske, _, _, _, _, hc⟩ := PiBas.cfgBuild_ok raw cfg hcfg
+  have hpack : ∀ ids, cfg.pack ids = .ok ids := by rw [hc]; intro ids; rfl
+  apply Chain.setup_complete cfg lv hl hr K db t (by rw [hkl]; exact hK) (fun p _ => ⟨p.2, hpack p.2⟩)
+  have : (db.map (Chain.nBlocks cfg)) = db.map (·.2.length) := by
+    apply List.map_congr_left
+    intro p _
+    simp [Chain.nBlocks, hpack]
+  rw [this]
+  exact hs
+
+/-- the whole of C01 for PiBas in one statement: setup returns, the token exists, the search returns the list -/
+theorem PiBas.correct (raw : RawCfg) (cfg : ChainCfg) (hcfg : PiBas.cfgBuild raw = .ok cfg)
+    (hout : getInt raw "prf_f_output_length" = getInt raw "param_lambda") (lv : Leaves) (hl : LeafLaws lv)
+    (K : Bytes) (hK : (K.length : Int) = cfg.lambda) (db : DB) (t : Tape) (hs : Chain.Supplies db.total t)
+    (hnc : ∀ L t', encDb cfg lv K db t = .ok (L, t') → Chain.NoColl cfg lv K db L) :
+    ∃ D t', Chain.setup cfg lv K db t = .ok (D, t') ∧ ∀ w ids, (w, ids) ∈ db →
+      ∃ tk, Chain.token cfg lv K w = .ok tk ∧ Chain.search cfg lv D tk = .ok ids := by
+  obtain ⟨D, t', hset⟩ := PiBas.setup_returns raw cfg hcfg hout lv hl K hK db t hs
+  exact ⟨D, t', hset, fun w ids hm => PiBas.search_stored raw cfg hcfg lv hl K db t t' D hset (fun L hL => hnc L t' hL) w ids hm⟩
+
+/-- the hypotheses of the completeness theorems are satisfiable: two 16-byte draws supply two encryptions -/
+example : Chain.Supplies 2 [.bytes (zeros 16), .bytes (zeros 16)] := by simp [Chain.Supplies, zeros]
+
+/-- PiPack, WITHOUT "once setup has returned": for an accepted configuration with `prf_f_output_length = param_lambda`,
+    every key of `param_lambda` bytes, EVERY database (the packer accepts any list for positive `param_B`) and every tape
+    that supplies one 16-byte IV per block, `EDBSetup` returns — and every stored keyword with valid identifiers is then
+    searched exactly. -/
+theorem PiPack.correct (raw : RawCfg) (cfg : ChainCfg) (hcfg : PiPack.cfgBuild raw = .ok cfg)
+    (hout : getInt raw "prf_f_output_length" = getInt raw "param_lambda") (lv : Leaves) (hl : LeafLaws lv)
+    (K : Bytes) (hK : (K.length : Int) = cfg.lambda) (db : DB) (t : Tape)
+    (hs : Chain.Supplies (db.map (Chain.nBlocks cfg)).sum t)
+    (hnc : ∀ L t', encDb cfg lv K db t = .ok (L, t') → Chain.NoColl cfg lv K db L) :
+    ∃ D t', Chain.setup cfg lv K db t = .ok (D, t') ∧ ∀ w ids, (w, ids) ∈ db → ValidIdsFor raw ids →
+      ∃ tk, Chain.token cfg lv K w = .ok tk ∧ Chain.search cfg lv D tk = .ok ids := by
+  obtain ⟨lam, B, out, sz, ske, hpos, hex, hlam, hB, ho, hsz, hske, hc⟩ := PiPack.cfgBuild_ok raw cfg hcfg
+  rw [hlam, ho] at hout
+  cases hout
+  have hk := new_keyLength lam ske hske
+  have hne : (lam == LENGTH_NOT_GIVEN) = false := by
+    simp [LENGTH_NOT_GIVEN]; omega
+  have hr : Chain.Runnable cfg := by
+    rw [hc]
+    refine ⟨rfl, ?_, ?_, ?_, rfl, (new_plain lam ske hske).1⟩
+    · simp [HmacPRF.new, hne]
+    · simp [HmacPRF.new, hne, (new_plain lam ske hske).2]
+    · simp [HmacPRF.new, hne]; omega
+  have hBpos : 0 < B := param_pos _ raw "param_B" B hpos hex (by decide +kernel) (by simp) hB
+  have hszpos : 0 < sz := param_pos _ raw "param_identifier_size" sz hpos hex (by decide +kernel) (by simp) hsz
+  have hpack : ∀ ids, ∃ chs, cfg.pack ids = .ok chs := by
+    intro ids
+    rw [hc]
+    simp only
+    have e : partitionBlocks ids B sz = partitionBlocksNat ids B.toNat sz.toNat 0 := by
+      unfold partitionBlocks
+      have : (0 ≤ B ∧ 0 ≤ sz ∧ (0 : Int) ≤ 0) := ⟨by omega, by omega, by omega⟩
+      simp [this]
+    rw [e]
+    unfold partitionBlocksNat
+    have : B.toNat ≠ 0 := by omega
+    simp [this]
+  have hkl : cfg.prfF.keyLength = cfg.lambda := by rw [hc]; rfl
+  obtain ⟨D, t', hset⟩ := Chain.setup_complete cfg lv hl hr K db t (by rw [hkl]; exact hK) (fun p _ => hpack p.2) hs
+  exact ⟨D, t', hset, fun w ids hm hv =>
+    PiPack.search_stored raw cfg hcfg lv hl K db t t' D hset (fun L hL => hnc L t' hL) w ids hm hv⟩
 
 end SSEPy.C01
